@@ -101,6 +101,27 @@ theorem C05_wait_sound (s s' : St) (hr : Reachable s) (a v self : Nat)
       simp only [ho', hlo] at h2
       omega
 
+/-- **An observed return of wait() is backed by an idle sample.**  The harness' observation
+    "`pika::wait()` returned on OS thread `a`" is accepted only if the most recent sample of the
+    counter taken on that thread let the predicate return (`C05_wait_sound` then applies to that
+    sample), and that flag is raised by nothing but such a sample. -/
+theorem C05_wait_exit_backed (s s' : St) (a : Nat) (h : step s (.waitExit a) = some s') :
+    s.lastRet a = true := by
+  simp only [step] at h
+  split at h
+  · rename_i hg; exact hg.2
+  · simp at h
+
+theorem C05_lastRet_only_by_idle_sample (s s' : St) (e : Ev) (a : Nat) (h : step s e = some s')
+    (h0 : s.lastRet a = false) (h1 : s'.lastRet a = true) :
+    ∃ v self, e = .sample a v self ∧ v ≤ self := by
+  cases e <;> simp only [step] at h <;> (repeat' split at h) <;>
+    first
+    | (simp at h; done)
+    | (simp only [Option.some.injEq] at h; subst h; simp_all; done)
+    | (simp only [Option.some.injEq] at h; subst h; simp only [upd] at h1; split at h1 <;> simp_all <;>
+        exact ⟨_, _, ⟨rfl, rfl⟩, by assumption⟩)
+
 /-- **Children are created while the parent is counted.**  When a running task body performs the
     increment of a `create_thread` call, the task's own thread object is live, hence the counter
     is at least 1 before and at least 2 after: no sample in between can see the idle value. -/
@@ -354,7 +375,7 @@ def exampleLog : List Ev :=
     .inc 3 2, .new 3 0, .body 3 1, .phaseEnd 3 1,
     .sample 0 2 0,                              -- wait(): 2 > 0, keeps waiting
     .destroy 3 1, .dec 3 1, .phaseBegin 2 0, .body 2 0, .phaseEnd 2 0, .destroy 2 0,
-    .sample 0 1 0, .dec 2 0, .sample 0 0 0,     -- wait() returns
+    .sample 0 1 0, .dec 2 0, .waitEnter 0, .sample 0 0 0, .waitExit 0,     -- wait() returns
     -- suspend / resume with a task queued in between
     .suspendEnter 0, .sample 0 0 0, .sleep 2, .sleep 3, .rtState 0 8,
     .inc 1 1, .new 1 1,
